@@ -42,7 +42,24 @@ def expectedDirectiveSeq : List ((String × String × String) × String) := [
   (("repeat.go", "repeatDocMap", "$repeat"), "Bkl.Process2.repeatDoc"),
   (("validate.go", "validateString", "$required"), "Bkl.Output.validateChars")]
 
-/-- F10: the directive literals of every function, in source order, are the ones the model mirrors -/
-theorem F10_directive_dispatch_order : Facts.directiveSeq = expectedDirectiveSeq.map (·.1) := by decide
+/-- the slice of a table that belongs to the given source files -/
+def seqOfFiles (files : List String) (t : List (String × String × String)) : List (String × String × String) :=
+  t.filter fun e => files.contains e.1
+
+/-- the files whose functions mention directive literals, grouped by the properties that rest on them
+    (one theorem per group, in its own module, so that a change in one file disturbs only the checks
+    that depend on it) -/
+def dispatchGroups : List (String × List String) := [
+  ("files",  ["file.go"]),                                   -- C03  (+ parser.go:MergeFile, listed under merge)
+  ("merge",  ["match.go", "merge.go", "parser.go"]),         -- C01 C02 C03
+  ("refs",   ["get.go", "process1.go"]),                     -- C10
+  ("output", ["output.go"]),                                 -- C11
+  ("eval",   ["process2.go", "repeat.go"]),                  -- C12 C13 C14
+  ("escape", ["finalize.go", "validate.go"])]                -- C06 C07
+
+/-- F10 (coverage): every function that mentions a directive literal lives in a file of some group —
+    a NEW file with recognisers of its own stops this theorem, which every group's module imports -/
+theorem F10_files_known :
+    Facts.directiveSeq.all (fun e => (dispatchGroups.flatMap (·.2)).contains e.1) = true := by decide
 
 end Bkl
